@@ -108,4 +108,35 @@ def CellsSim (h h' : Heap) (pm mm : List (Nat × Nat)) : Prop :=
 def Injective (m : List (Nat × Nat)) : Prop :=
   ∀ a b c, lookup m a = some c → lookup m b = some c → a = b
 
+/-- every cell of the heap is well-formed -/
+def HeapOK (h : Heap) : Bool := h.all (okCell h)
+
+/-- Locality of the overlay step (heap-level effect of overlayStruct on the copied base and the copied
+source value) — an ASSUMPTION about overlay.go, sampled by the correspondence harness's alias oracle:
+when everything the base and the overlay value reach (through exported fields) lies at or above
+`mark`, the step leaves every cell below `mark` alone, never shrinks the heap, keeps it
+well-formed, and its result again reaches only cells at or above `mark`. -/
+structure OverlayLocal (ov : Heap → HV → HV → Heap × HV) : Prop where
+  grows : ∀ h b o, h.length ≤ (ov h b o).1.length
+  frame : ∀ h b o mark, (∀ a, ReachV h b a → mark ≤ a) → (∀ a, ReachV h o a → mark ≤ a) →
+    ∀ a, a < mark → (ov h b o).1[a]? = h[a]?
+  reach : ∀ h b o mark, mark ≤ h.length → (∀ a, ReachV h b a → mark ≤ a) → (∀ a, ReachV h o a → mark ≤ a) →
+    ∀ a, ReachV (ov h b o).1 (ov h b o).2 a → mark ≤ a
+  wf : ∀ h b o, HeapOK h = true → okV h b = true → okV h o = true →
+    HeapOK (ov h b o).1 = true ∧ okV (ov h b o).1 (ov h b o).2 = true
+
+mutual
+/-- a simple concrete overlay (field-wise: a nil overlay field keeps the base field, anything else
+replaces it; nested struct values merge) — the inhabitant showing `OverlayLocal` is satisfiable -/
+def mergeV : HV → HV → HV
+  | b, .nil => b
+  | .st bs, .st os => .st (mergeFs bs os)
+  | _, o => o
+def mergeFs : HFs → HFs → HFs
+  | .cons ex b bs, .cons _ o os => .cons ex (mergeV b o) (mergeFs bs os)
+  | bs, _ => bs
+end
+
+def simpleOverlay (h : Heap) (b o : HV) : Heap × HV := (h, mergeV b o)
+
 end Dials.Heap
